@@ -46,9 +46,24 @@ def structure_follows(el, ref, path, bad):
             if c.name in byname and c.classname in ('Group', 'Segment', 'Field'):
                 seen[c.name] = seen.get(c.name, 0) + 1
                 structure_follows(c, byname[c.name], path + ['%s[%d]' % (c.name, seen[c.name] - 1)], bad)
-    elif el.classname == 'Field' and len(ref) == 6:
+    elif el.classname in ('Field', 'Component') and len(ref) == 6:
         if ref[2] != 'varies' and el.datatype != ref[2] and not (ref[0] == 'leaf' and el.datatype is None):
             bad.append('%s: datatype %s, profile says %s' % ('/'.join(path), el.datatype, ref[2]))
+        elif ref[0] == 'sequence' and gen.is_seq(ref[1]) and el.datatype == ref[2]:
+            # below the field: the components (subcomponents) and their cardinalities are the profile's too
+            rows = [r for r in ref[1] if gen.is_seq(r) and len(r) == 4]
+            want_names = [r[0] for r in rows]
+            want_reps = {r[0]: tuple(r[2]) for r in rows}
+            if len(set(want_names)) == len(want_names):
+                if list(el.ordered_children or []) != want_names:
+                    bad.append('%s: children %s, profile says %s' % ('/'.join(path), list(el.ordered_children or [])[:8], want_names[:8]))
+                elif {k: tuple(v) for k, v in el.repetitions.items()} != want_reps:
+                    diff = [(k, tuple(el.repetitions.get(k, ())), want_reps[k]) for k in want_reps if tuple(el.repetitions.get(k, ())) != want_reps[k]][:3]
+                    bad.append('%s: cardinalities differ from the profile: %s' % ('/'.join(path), diff))
+                byname = {r[0]: r[1] for r in rows}
+                for c in el.children:
+                    if c.name in byname and c.classname == 'Component':
+                        structure_follows(c, byname[c.name], path + [c.name], bad)
 
 
 def pmsg(job):
@@ -152,6 +167,40 @@ def creation(job):
                 errs = [impl.canon_err(x) for x in m.validate(return_errors=True).errors]
                 if 'missing:%s.%s' % (S, F) not in errs:
                     bad.append('profile makes %s.%s required, validate() of a segment without it does not report it: %s' % (S, F, errs[:5]))
+        elif e[0] == 'C' and e[1] == 'd':
+            # a component of a datatype made required / limited by the profile: every field of that datatype created under the profile carries it
+            dt, comp, mn, mx = e[2], e[3], e[4], e[5]
+            holder = None
+            for sname, sref in sorted(lib.SEGMENTS.items()):
+                if gen.is_seq(sref) and len(sref) > 1 and gen.is_seq(sref[1]):
+                    for row in sref[1]:
+                        if gen.is_seq(row) and len(row) == 4 and gen.well_formed_ref(row[1]) and len(row[1]) == 6 and row[1][2] == dt and row[2][1] != 0:
+                            holder = (sname, row[0])
+                            break
+                if holder:
+                    break
+            if holder:
+                # find that segment inside the profile (by name, anywhere) and instantiate it with the profile's reference
+                def find_seg(ref, depth=0):
+                    if not (gen.is_seq(ref) and len(ref) >= 2 and gen.is_seq(ref[1])) or depth > 5:
+                        return None
+                    for r in ref[1]:
+                        if gen.is_seq(r) and len(r) == 4:
+                            if r[3] == 'SEG' and r[0] == holder[0]:
+                                return r[1]
+                            if r[3] == 'GRP':
+                                x = find_seg(r[1], depth + 1)
+                                if x is not None:
+                                    return x
+                    return None
+                sref = find_seg(prof[st])
+                if sref is not None:
+                    seg = Segment(holder[0], reference=sref, version=v, validation_level=vlib.level(strict))
+                    for via in ('traversal', 'add_field'):
+                        f = getattr(seg, holder[1].lower()) if via == 'traversal' else seg.add_field(holder[1])
+                        got = tuple(f.repetitions.get(comp, ())) if via == 'add_field' else None
+                        if via == 'add_field' and got != (mn, mx):
+                            bad.append('%s.%s (%s) by %s: cardinality of %s is %s, profile says %s' % (holder[0], holder[1], dt, via, comp, got, (mn, mx)))
         elif e[0] == 'F' and e[1] == 's':
             S, F = e[2], e[3]
             m = fresh()
